@@ -67,7 +67,24 @@ def gen_scatter_case(rng, k):
     kl = h["kwargs_lens"]
     kl.setdefault("lambda_ifu", 1.02)
     cfg["lambda_mst_distribution"] = "GAUSSIAN"
-    which = ["ifu", "mst", "los"][k % 3]
+    which = ["ifu", "mst", "los", "ani"][k % 4]
+    if which == "ani":
+        # the anisotropy scatter is the ONLY scatter acting on a kinematic lens: the reported kinematic prediction must
+        # still be the average over the draws (as the likelihood marginalises over them)
+        case = gen_case(rng, rng.choice(["IFUKinCov", "DdtGaussKin"]), False)
+        cfg, h = case["cfg"], case["hyper"]
+        for key in ("global_los_distribution", "los_distributions"):
+            cfg.pop(key, None)
+        h["kwargs_los"] = None
+        h["kwargs_lens"].update(lambda_mst_sigma=0.0, lambda_ifu_sigma=0.0)
+        nb = len(case["data"]["sigma_v_measurement"])
+        axis = np.linspace(0.5, 4.0, 6)
+        cfg.update(anisotropy_model="OM", anisotropy_sampling=True, anisotropy_distribution=rng.choice(["GAUSSIAN", "GAUSSIAN_SCALED"]),
+                   kin_scaling_param_list=["a_ani"], j_kin_scaling_param_axes=axis,
+                   j_kin_scaling_grid_list=[np.array([rng.uniform(0.7, 1.4) for _ in axis]) for _ in range(nb)], num_distribution_draws=400)
+        h["kwargs_kin"].update(a_ani=rng.uniform(1.5, 2.5), a_ani_sigma=rng.uniform(0.05, 0.2))
+        case["stream"] = "scatter_ani"
+        return case
     if which == "ifu":
         cfg["mst_ifu"] = True
         kl.update(lambda_mst_sigma=0.0, lambda_ifu_sigma=rng.uniform(0.02, 0.08))
@@ -149,6 +166,15 @@ def oracle(case, out, lens, cosmo):
     else:
         if m is not None:
             fails.append("velocity-dispersion report for a non-kinematic type")
+    # a lens that the likelihood marginalises over draws (check_dist says "not sharp") reports the AVERAGE over the
+    # same number of draws, not one realisation
+    try:
+        sharp_impl = bool(lens.check_dist(h["kwargs_lens"], h["kwargs_kin"], h["kwargs_source"], h["kwargs_los"]))
+    except Exception:  # noqa
+        sharp_impl = None
+    if lt in lc.KIN_TYPES and sharp_impl is False and out["draws"] is not None and len(out["draws"]) != cfg["num_distribution_draws"]:
+        fails.append("the likelihood marginalises over %d draws (an applicable scatter is non-zero) but the reported kinematic "
+                     "prediction is built from %d realisation(s)" % (cfg["num_distribution_draws"], len(out["draws"])))
     # model distances
     a, sa, b, sb = [float(np.squeeze(v)) for v in out["ddt_dd"]]
     if sharp and lam * (1 - kap) >= 1e-4:
